@@ -87,12 +87,12 @@ func (node HmmNode) Check(n int) bool {
 /* -------------------------------------------------------------------------- */
 
 func (node HmmNode) ExportConfig() interface{} {
+  if len(node.Children) == 0 {
+    return node.States
+  }
   r := []interface{}{}
   for i := 0; i < len(node.Children); i++ {
-    r = append(r, node.Children[i].ExportConfig().([]interface{})...)
-  }
-  if len(node.Children) == 0 {
-    r = append(r, node.States)
+    r = append(r, node.Children[i].ExportConfig())
   }
   return r
 }
@@ -124,6 +124,12 @@ func (node *HmmNode) ImportConfig(v interface{}) bool {
           return false
         }
         node.Children = append(node.Children, child)
+      }
+      if n := len(node.Children); n == 0 {
+        return false
+      } else {
+        node.States[0] = node.Children[0  ].States[0]
+        node.States[1] = node.Children[n-1].States[1]
       }
     }
     return true
